@@ -2639,6 +2639,12 @@ impl DhtNetworkManager {
         Ok(())
     }
 
+    /// The DHT core engine behind this manager.
+    #[cfg(feature = "verif-hooks")]
+    pub fn verif_core(&self) -> Arc<RwLock<DhtCoreEngine>> {
+        Arc::clone(&self.dht)
+    }
+
     /// Number of pending DHT operations.
     #[cfg(feature = "verif-hooks")]
     pub fn verif_active_operations_len(&self) -> usize {
